@@ -19,8 +19,18 @@ from pathlib import Path
 
 VERIF = Path(__file__).resolve().parent.parent
 ALL = [f"C{i:02d}" for i in range(1, 21) if i != 15]
+_NEWCLS = "a private CLASS the refactoring introduces is reached through a classmethod / from rule code that inspects the old attributes directly; the object model only instantiates classes it is asked to construct"
 EXPECTED_UNDECIDED = {
-    "C19-b4": ("C19", "the digest command hands the workspace and the algorithms to a NEW function of pyhf.utils that does the work of digest() without calling it; which of its parameters means what is not in the command-line contract table (C19.R1), and the command-line world does not model it (C19.R4)"),
+    # name -> {property: reason}; a check may answer `cannot decide` (exit 2) on these, never a violation
+    "C19-b4": {"C19": "the digest command hands the workspace and the algorithms to a NEW function of pyhf.utils that does the work of digest() without calling it; which of its parameters means what is not in the command-line contract table (C19.R1), and the command-line world does not model it (C19.R4)"},
+    "C19-d1": {"C19": "a NEW command-line option (`pyhf digest --output-file`): C19.R1 demands a contract-table entry for every option, a new one has none until the table is extended"},
+    "C12-d3": {p_: "_finalize_parameters_specs and _create_parameters_from_spec are MERGED into a private class with a classmethod constructor (`_ParameterLayout.from_requirements`): the pinned anchors are gone (no single function to relocate to) and the build-pipeline scenario does not model classmethods of classes it was not given" for p_ in ("C01", "C02", "C03", "C10", "C12", "C20")},
+    "C17-d3": {"C17": "PatchSet delegates to a new private `_PatchRegistry`; the C17.R6 scenario code reads the set's own `_patches` list directly (python-level len() of a modelled instance)"},
+    "C18-d3": {"C18": "build_measurement is split over a NamedTuple with a property and two helpers; the lumi unit scenario (C18.R2) and the whole-file cycle (C18.R5) are function-level interpretations that do not iterate a generator of modelled records"},
+    "C02-d5": {"C02": "the unbatched constraint classes select row 0 of the access field at construction; the C02.R3 scenario hands the constructor a scalar stand-in where the new code iterates"},
+    "C10-d5": {"C02": "same change as C02-d5 proposed for C10: `make_pdf` reads attributes (`_gather_indices`, `_rate_factors`) that only the new `_precompute` sets; the C02.R3 make_pdf scenario builds the object's attributes by hand"},
+    "C11-d5": {"C01": "the tiled mask is hoisted into `__init__` as a new attribute; C01.R1 evaluates `apply` on hand-made attributes of the pinned names"},
+    "C13-d5": {"C05": "the jax objective stitches through module-level helpers of tensor/common.py operating on default_backend index tensors; the C05.R4 function-level scenario models `_TensorViewer`, not its extracted helpers"},
 }
 
 
@@ -51,13 +61,13 @@ def main():
             if skip:
                 print(f"BENIGN skip      {name}: {skip}")
                 continue
-            allowed = EXPECTED_UNDECIDED.get(name)
-            unexpected = {p: c for p, c in codes.items() if not (allowed and p == allowed[0] and c == 2)}
+            allowed = EXPECTED_UNDECIDED.get(name) or {}
+            unexpected = {p: c for p, c in codes.items() if not (p in allowed and c == 2)}
             if unexpected:
                 bad += 1
                 print(f"BENIGN ALARM     {name}: {unexpected}")
             elif codes:
-                print(f"BENIGN undecided {name}: {codes} (expected: {allowed[1][:90]}...)")
+                print(f"BENIGN undecided {name}: {codes} (expected: {next(iter(allowed.values()))[:90]}...)")
             else:
                 print(f"BENIGN quiet     {name}")
     print(f"BENIGN summary: {len(names)} replays, {bad} with an unexpected verdict")
